@@ -55,6 +55,9 @@ extern long cjv_case_id;            /* current case id */
 extern long cjv_op_idx;             /* index of op within the case */
 extern const char *cjv_cur_call;    /* name of library call in progress (or NULL) */
 extern volatile int cjv_in_lib;     /* 1 while a library call is in progress */
+extern volatile int cjv_walking;    /* >0 while a monitor follows pointers of library structures */
+#define WALK_BEGIN() (cjv_walking++)
+#define WALK_END()   (cjv_walking--)
 extern long cjv_violations;         /* number of V lines written */
 
 void cjv_violation(const char *key, const char *fmt, ...) __attribute__((format(printf, 2, 3)));
